@@ -623,12 +623,20 @@ func genFuzz(stream string, seed uint64, n int) []GenCase {
 		}
 		add(script, oddObject(r), "valid-program-odd-object")
 	}
+	// unbounded recursion must come to an error (call-depth limit), with the evaluator usable afterwards
+	{
+		c := Case{ID: fmt.Sprintf("%s-%d", stream, id), Script: "function r(n) { return r(n + 1); } if (Flag) { return r(0); } return 7;", Opt: true, Tags: []string{"unbounded-recursion"},
+			Fns: []HostFn{recFn()}, Runs: []Run{{Obj: HV{Kind: "struct", Fields: []HField{{"Flag", true, HV{Kind: "bool", B: true}}}}, Polls: 190000},
+				{Obj: HV{Kind: "struct", Fields: []HField{{"Flag", true, HV{Kind: "bool", B: false}}}}, Polls: 5000}}}
+		id++
+		out = append(out, GenCase{Case: c, Stream: stream, NonTrivial: true})
+	}
 	// run-time faults inside scripts
 	for _, s := range []string{"return [1][5] + 1;", "return 1 / 0;", "return 1 % 0;", "return 1.5 % 0.2;", "return \"a\" - 1;", "panic(\"boom\");", "panic();", "return nosuch(1);",
 		"function f(a) { return a; } return f();", "return hnil();", "return hpanic();", "x = print(1); return x;", "return {[1]: 2};", "return {true: 1};", "return -\"a\";",
 		"foreach x in 5 { }", "return 3..1;", "return 1..\"a\";", "x = 1; x.y = 2;", "return len();", "return sort(1, 2, 3);", "return sprintf(\"%d\");", "return sprintf(\"%z\", 1);", "return match(\"a\", \"(\");",
 		"return replace(\"a\", \"(\", \"b\");", "return [1,2,3][\"a\"];", "return \"abc\"[1.5];", "return Missing.field;", "return Missing[0];", "return 1 in 2;", "return √\"a\";", "return √-1;",
-		"function r(n) { return r(n + 1); } return r(0);", "while (true) { }", "x = 0; while (true) { x++; }", "return int(\"999999999999999999999\");", "return float(\"1e999\");",
+		"function r(n) { return r(n + 1); } return r(0);", "function d(n) { if (n > 300) { return n; } return d(n + 1); } return d(0);", "while (true) { }", "x = 0; while (true) { x++; }", "return int(\"999999999999999999999\");", "return float(\"1e999\");",
 		"return 9223372036854775807 + 1;", "return -9223372036854775807 - 2;", "return 9223372036854775807 * 2;", "return (0 - 9223372036854775807 - 1) / -1;", "return (0 - 9223372036854775807 - 1) % -1;",
 		"return hour(\"x\");", "return weekday(99999999999);", "return year(-99999999999);", "return keys(1);", "return join([1, [2, [3]]], \",\");", "return string({1: {2: [3]}});",
 		"x++; return x;", "++;", "--;", "(1)++;", "return 1; ++;", "\"s\"++;", "return (1, 2);", "OPTIMIZE = 5; return OPTIMIZE;", "return \"a\"(1);", "return 1(2);", "return (f)(1);", "return [1][0](2);"} {
